@@ -113,7 +113,9 @@ void harness(void)
     H4V_ASSERT(DF24getimage("t.hdf", out, XD, YD) == SUCCEED, "C15.S1.gr24.getimage");
     for (y = 0; y < YD; y++) for (x = 0; x < XD; x++) for (c = 0; c < 3; c++)
         H4V_ASSERT(out[bidx(RIL, x, y, c)] == pix[bidx(IL, x, y, c)], "C15.S1.gr24.pixels: GR image component read through DF24 differs");
-#elif MODE == 4
+#elif MODE == 4 || MODE == 6 /* 6: the second object has the SAME ref and another tag */
+#define O2TAG (MODE == 6 ? 1001 : 1000)
+#define O2REF (MODE == 6 ? 1 : 2)
     {
         int32 an, ann, lst[4];
         char  buf[24], lab[8] = "label1";
@@ -133,16 +135,26 @@ void harness(void)
         H4V_ASSERT(ANannlist(an, AN_DATA_LABEL, 1000, 1, lst) == 1 && ANannlen(lst[0]) == 6, "C15.S1.an.lablen");
         H4V_ASSERT(ANreadann(lst[0], buf, 16) == SUCCEED && strcmp(buf, "label1") == 0, "C15.S1.an.label: label written by DFAN read through AN differs");
         /* the other direction on a second object */
-        H4V_ASSERT(Hputelement(f, 1000, 2, pix, 4) == 4, "C15.S1.an.obj2");
-        ann = ANcreate(an, 1000, 2, AN_DATA_DESC);
+        H4V_ASSERT(Hputelement(f, O2TAG, O2REF, pix, 4) == 4, "C15.S1.an.obj2");
+        ann = ANcreate(an, O2TAG, O2REF, AN_DATA_DESC);
         H4V_ASSERT(ann != FAIL && ANwriteann(ann, (const char *)&txt[9], 7) == SUCCEED && ANendaccess(ann) == SUCCEED, "C15.S1.an.write");
         H4V_ASSERT(ANend(an) == SUCCEED && Hclose(f) == SUCCEED, "C15.S1.an.close");
         H4V_ASSERT(DFANclear() == SUCCEED, "C15.S1.dfan.clear"); /* drop DFAN's per-process directory cache (documented reset call) */
-        H4V_ASSERT(DFANgetdesclen("t.hdf", 1000, 2) == 7, "C15.S1.dfan.len: description length seen through DFAN differs");
+        H4V_ASSERT(DFANgetdesclen("t.hdf", O2TAG, O2REF) == 7, "C15.S1.dfan.len: description length seen through DFAN differs");
         for (i = 0; i < 24; i++) buf[i] = 0x4D;
-        H4V_ASSERT(DFANgetdesc("t.hdf", 1000, 2, buf, 16) != FAIL, "C15.S1.dfan.getdesc");
+        H4V_ASSERT(DFANgetdesc("t.hdf", O2TAG, O2REF, buf, 16) != FAIL, "C15.S1.dfan.getdesc");
         for (i = 0; i < 7; i++) H4V_ASSERT((uint8)buf[i] == txt[9 + i], "C15.S1.dfan.text: description written by AN read through DFAN differs");
         H4V_ASSERT(DFANgetdesclen("t.hdf", 1000, 1) == 9, "C15.S1.dfan.len1: first description changed");
+        /* a label for the second object through DFAN; the first object's label is untouched and both are listed by AN */
+        H4V_ASSERT(DFANputlabel("t.hdf", O2TAG, O2REF, "lab2") == SUCCEED, "C15.S1.dfan.putlabel2");
+        for (i = 0; i < 24; i++) buf[i] = 0x4D;
+        H4V_ASSERT(DFANgetlabel("t.hdf", 1000, 1, buf, 16) != FAIL && strcmp(buf, "label1") == 0, "C15.S1.dfan.label1: the first object's label changed when another object was labelled");
+        H4V_ASSERT(DFANgetlabel("t.hdf", O2TAG, O2REF, buf, 16) != FAIL && strcmp(buf, "lab2") == 0, "C15.S1.dfan.label2: the second object's label differs");
+        f = Hopen("t.hdf", DFACC_READ, 0);
+        an = ANstart(f);
+        H4V_ASSERT(f != FAIL && an != FAIL, "C15.S1.an.start2");
+        H4V_ASSERT(ANnumann(an, AN_DATA_LABEL, 1000, 1) == 1 && ANnumann(an, AN_DATA_LABEL, O2TAG, O2REF) == 1, "C15.S1.an.numann2: labels written by DFAN for two objects are not both listed by AN");
+        H4V_ASSERT(ANend(an) == SUCCEED && Hclose(f) == SUCCEED, "C15.S1.an.close2");
     }
 #endif
     (void)f; (void)gr; (void)ri; (void)dims; (void)nc; (void)nt; (void)il; (void)na; (void)nm; (void)x; (void)y; (void)c; (void)pout; (void)st; (void)ed;
